@@ -56,6 +56,8 @@ class Calendar:
         self.off = []
         for s, e in m.get("vacations", []):
             self.off.append(interval_of(s, e))
+        for typ, s, e in m.get("gleaves", []):
+            self.off.append(interval_of(s, e))
         for s, e in r.get("leaves", []):
             self.off.append(interval_of(s, e))
         for s, e in r.get("vacs", []):
